@@ -147,6 +147,8 @@ class SX:
             return sx_add(sx_add('PosixPath(', SX.b_repr(SymStr(args[0].s.t, args[0].s.segs))), ')')
         if args and getattr(builtins, name, None) is fn:
             a0 = args[0]
+            if name == 'str' and type(a0).__name__ == 'MPath':
+                return a0.__str__()           # may be a symbolic string (symbolic file name)
             if isinstance(a0, Sym) or (name in ('repr', 'str', 'sorted', 'list', 'format', 'print') and
                                        (has_sym(a0) or _has_symset(a0))):
                 return getattr(SX, 'b_' + name)(*args)
